@@ -8,6 +8,7 @@ from ..core import Phase, Result
 from .. import grammar as G
 from .. import scripted, snapshot
 from .. import solvecheck as SC
+from ..represent import Rep, tapes, with_rep
 from ..util import attempt, same_array
 
 import fsic
@@ -58,10 +59,10 @@ def make_linker_class():
                                     lambda nm, v: self.__dict__['_' + nm].__setitem__(t, v), toks)
 
         def solve_t_before(self, t, *args, **kwargs):
-            self.__dict__['_glog'].append(('solve_before', kwargs.get('iteration'), tuple(kwargs.get('submodels') or ())))
+            self.__dict__['_glog'].append(('solve_before', kwargs.get('iteration'), tuple(kwargs.get('submodels') if kwargs.get('submodels') is not None else ())))
 
         def solve_t_after(self, t, *args, **kwargs):
-            self.__dict__['_glog'].append(('solve_after', kwargs.get('iteration'), tuple(kwargs.get('submodels') or ())))
+            self.__dict__['_glog'].append(('solve_after', kwargs.get('iteration'), tuple(kwargs.get('submodels') if kwargs.get('submodels') is not None else ())))
 
         def evaluate_t_before(self, t, *args, **kwargs):
             k = kwargs.get('iteration')
@@ -211,9 +212,11 @@ def check_case(case):
                  f'(instance {linker.lags}/{linker.leads}), maxima are {wantL}/{wantK}')
     t = case['t']
     T = t + n if t < 0 else t
-    kw = dict(opts)
+    rep = Rep(case.get('rep'))
+    kw = rep.opts(opts)
     if case.get('select') is not None:
-        kw['submodels'] = list(case['select'])
+        kw['submodels'] = rep.seq(case['select'])      # a tuple, a dict-keys view or an array selects the same submodels
+    rep.tag(res)
     before = {sid: snapshot.snapshot(m) for sid, m in subs.items()}
     if case.get('via_solve'):
         # the multi-period entry point restricted to the one period: every option has to be forwarded to solve_t
@@ -367,12 +370,14 @@ def check_single(case):
     linker = fsic.BaseLinker({'m': inner})
     opts = dict(case['opts'])
     entry = case.get('entry', 'solve_t')
+    rep = Rep(case.get('rep'))
+    ropts = rep.opts(opts)
     if entry == 'solve':
         r1 = attempt(bare.solve, **opts)
-        r2 = attempt(linker.solve, **opts)
+        r2 = attempt(linker.solve, **ropts)
     else:
         r1 = attempt(bare.solve_t, case['t'], **opts)
-        r2 = attempt(linker.solve_t, case['t'], **opts)
+        r2 = attempt(linker.solve_t, rep.int(case['t']), **ropts)
     res = Result(classes=['single-model-linker', 'entry:' + entry])
     detail = f'{text!r} coef={case["coef"]} {entry} t={case["t"]} {SC.opts_text(opts)}'
     finite = all(np.all(np.isfinite(bare[k])) for k in ('Y', 'Z'))
@@ -407,12 +412,13 @@ def strat_single():
             'min_iter': st.integers(0, 3), 'max_iter': st.sampled_from([0, 1, 2, 3, 8, 30, 60, 100]),
             'tol': st.sampled_from([1e-6, 0.5, 2.0 ** -10, 1e-10, 1e-3]), 'failures': st.sampled_from(['raise', 'ignore']),
         }, optional={'offset': st.sampled_from([0, -1, 1, -1, 2])}),
+        'rep': tapes(),
     })
 
 
 def phases(tier):
     quick = tier == 'quick'
     return [
-        Phase('lattice-and-selections', check_case, gen=gen_lattice(2 if quick else 3), exhaustive=True),
+        Phase('lattice-and-selections', check_case, gen=with_rep(gen_lattice(2 if quick else 3)), exhaustive=True),
         Phase('single-model-linker', check_single, strategy=strat_single, examples=1500 if quick else 100000),
     ]
